@@ -23,7 +23,11 @@ WHERE = {"UsageJourneyStep": ("W1", "s2"), "UsageJourney": ("W1", "uj"), "Device
          "WebApplication": ("W4", "wa"), "VideoStreaming": ("W4", "vs"), "GenAIModel": ("W4", "gm"),
          "BoaviztaCloudServer": ("W4", "csv"), "WebApplicationJob": ("W4", "jw"), "VideoStreamingJob": ("W4", "jv"),
          "GenAIJob": ("W4", "jg"), "GPUServer": ("W4", "gsv")}
-STATES = {"W1": [[], [["set", "sv", "server_type", ["c", "on-premise"]]], [["link", "j1", "server", "sv_b"]],
+STATES = {"W1": [[], [["set", "sv", "server_type", ["c", "on-premise"]]],
+                 # an on-premise server with a fixed count: turning it autoscaling / serverless must be refused
+                 [["set", "sv", "server_type", ["c", "on-premise"]],
+                  ["set", "sv", "fixed_nb_of_instances", ["q", 5000.0, "dimensionless"]]],
+                 [["link", "j1", "server", "sv_b"]],
                  [["list", "uj", "uj_steps", ["s2", "s1", "s3"]]], [["set", "j1", "data_stored", ["q", 200.0, "kilobyte"]]]],
           "W4": [[]]}
 # companions of the invalid change in a grouped update: a quantity, a link and a list change (all valid on their own)
@@ -90,15 +94,69 @@ def triples(cls_name):
             kinds = ["list-containing-wrong-class-object", "single-object-instead-of-list", "list-containing-string"]
         else:
             continue
+        # conditional allowed lists: a value allowed only under another value of the attribute it depends on, and a
+        # change of that attribute under which the current dependent value is no longer allowed
+        if name in clv and pk in ("quantity", "quantity-optional", "categorical"):
+            kinds.append("allowed-only-under-another-condition")
+        awdv = cls.attributes_with_depending_values() if hasattr(cls, "attributes_with_depending_values") else {}
+        if name in awdv and pk == "categorical":
+            kinds.append("condition-change-invalidating-dependent-value")
         for k in kinds:
             out.append((name, pk, k))
     return out
+
+
+def _current(m, w, obj_name, attr):
+    """Current value of an attribute: from the live object when there is one, else from the world / class defaults."""
+    o = S.unwrap(m.objs.get(obj_name)) if m.objs.get(obj_name) is not None else None
+    if o is not None and getattr(o, attr, None) is not None and hasattr(o, "calculated_attributes"):
+        return getattr(o, attr)
+    spec = w["objects"][obj_name]["attrs"].get(attr)
+    if spec is not None:
+        return W.mkval(spec)
+    return W.get_cls(w["objects"][obj_name]["cls"]).default_values().get(attr)
+
+
+def conditional_bad(m, w, obj_name, param, pk, kind):
+    from efootprint.constants.units import u
+    from efootprint.abstract_modeling_classes.source_objects import SourceValue, SourceObject
+    cls = W.get_cls(w["objects"][obj_name]["cls"])
+    clv = cls.conditional_list_values()
+    if kind == "allowed-only-under-another-condition":
+        rule = clv[param]
+        cond = _current(m, w, obj_name, rule["depends_on"])
+        lists = rule["conditional_list_values"]
+        if cond is None or cond not in lists:
+            raise LookupError("no constraint in this state")
+        allowed = lists[cond]
+        for c in sorted(lists, key=lambda x: str(x.value)):
+            for v in lists[c]:
+                if v not in allowed:
+                    return SourceObject(v.value) if pk == "categorical" else v
+        if pk.startswith("quantity"):
+            v = SourceValue(4.0 * u.dimensionless)
+            if v not in allowed:
+                return v
+        raise LookupError("every value is allowed")
+    if kind == "condition-change-invalidating-dependent-value":
+        for dep in cls.attributes_with_depending_values()[param]:
+            cur = _current(m, w, obj_name, dep)
+            lists = clv[dep]["conditional_list_values"]
+            if cur is None:
+                continue
+            for c in sorted(lists, key=lambda x: str(x.value)):
+                if cur not in lists[c]:
+                    return SourceObject(c.value)
+        raise LookupError("no condition value invalidates the current dependent values")
+    raise ValueError(kind)
 
 
 def make_bad(m, w, obj_name, param, pk, kind):
     """Build the invalid value for (param, kind). Returns the python value to pass/assign."""
     from efootprint.constants.units import u
     from efootprint.abstract_modeling_classes.source_objects import SourceValue, SourceObject
+    if kind in ("allowed-only-under-another-condition", "condition-change-invalidating-dependent-value"):
+        return conditional_bad(m, w, obj_name, param, pk, kind)
     spec = w["objects"][obj_name]["attrs"].get(param)
     cls = W.get_cls(w["objects"][obj_name]["cls"])
     if spec is None or spec[0] == "e":
@@ -193,7 +251,11 @@ def run_construction(task):
         names = [n for n in W.reachable(w, obj_name, with_installed_services=False) if n != obj_name]
         m = _build_subset(w, names)
         kw = kwargs_for(m, w, obj_name)
-        kw[param] = make_bad(_with_obj(m, w, obj_name), w, obj_name, param, pk, kind)
+        try:
+            kw[param] = make_bad(_with_obj(m, w, obj_name), w, obj_name, param, pk, kind)
+        except LookupError:
+            res["counters"][f"not_applicable_at_construction:{cls_name}.{param}:{kind}"] = 1
+            continue
         res["n"] += 1
         try:
             W.get_cls(cls_name)("probe", **kw)
@@ -303,7 +365,7 @@ def make_tasks(tier):
         tasks.append({"kind": "construction", "cls": cls_name, "triples": ts})
     modes = ["single"] + list(GROUPED_MODES)
     for fam in ("W1", "W4"):
-        for hist in (STATES[fam] if tier == "thorough" else STATES[fam][:3]):
+        for hist in (STATES[fam] if tier == "thorough" else STATES[fam][:4]):
             for mode in modes:
                 for cls_name in classes:
                     if WHERE[cls_name][0] != fam:
